@@ -41,6 +41,8 @@ struct Q {
     /// AS alphabet for mutators
     ases: Vec<u64>,
     wf: bool,
+    /// for "valid set + added segments" cases: the valid subset (cores, non-cores)
+    sub: Option<(Vec<S>, Vec<S>)>,
 }
 
 fn hopf(exp: u8, ing: u16, eg: u16, mac: [u8; 6]) -> SegmentHopField {
@@ -70,12 +72,14 @@ const TS0: u32 = 1_700_000_000;
 struct L { a: u64, aif: u16, b: u64, bif: u16, mtu: u16 }
 
 #[derive(Clone)]
-struct Topo { name: String, ases: Vec<(u64, bool)>, pc: Vec<L>, cl: Vec<L>, pl: Vec<L>, next_if: BTreeMap<u64, u16> }
+struct Topo { name: String, ases: Vec<(u64, bool)>, pc: Vec<L>, cl: Vec<L>, pl: Vec<L>, next_if: BTreeMap<u64, u16>,
+              /// requests to ask first (routes that order differently by segment count and by link count, ...)
+              focus: Vec<(u64, u64)> }
 
 impl Topo {
     fn new(name: &str, cores: &[u64]) -> Self {
         Topo { name: name.into(), ases: cores.iter().map(|&c| (c, true)).collect(), pc: vec![], cl: vec![],
-               pl: vec![], next_if: BTreeMap::new() }
+               pl: vec![], next_if: BTreeMap::new(), focus: vec![] }
     }
     fn reg(&mut self, x: u64) { if !self.ases.iter().any(|a| a.0 == x) { self.ases.push((x, false)); } }
     fn nif(&mut self, x: u64) -> u16 { let c = self.next_if.entry(x).or_insert(0); *c += 1; *c }
@@ -244,6 +248,37 @@ fn topologies() -> Vec<Topo> {
     t.pca(a(4), a(5)); v.push(t);
     let mut t = Topo::new("peer_uncle", &[a(1)]);
     t.pca(a(1), a(2)); t.pca(a(1), a(3)); t.pca(a(2), a(4)); t.pca(a(3), a(5)); t.pla(a(4), a(3)); t.pla(a(2), a(5)); v.push(t);
+    // --- routes whose segment count and link count order differently / tie in one key only ---
+    // S dual-homed: directly under core 1, and at depth 3 under core 2; D directly under core 2:
+    // S-1-2-D is 3 links over 3 segments, S-6-5-2-D is 4 links over 2 segments
+    let mut t = Topo::new("dual_home_long", &[a(1), a(2)]);
+    t.cla(a(1), a(2)); t.pca(a(1), a(3)); t.pca(a(2), a(4)); t.pca(a(2), a(5)); t.pca(a(5), a(6)); t.pca(a(6), a(3));
+    t.focus = vec![(a(3), a(4)), (a(4), a(3))]; v.push(t);
+    // both ends dual-homed with long second chains
+    let mut t = Topo::new("dual_home_both", &[a(1), a(2)]);
+    t.cla(a(1), a(2)); t.pca(a(1), a(3)); t.pca(a(2), a(4));
+    t.pca(a(2), a(5)); t.pca(a(5), a(6)); t.pca(a(6), a(3));
+    t.pca(a(1), a(7)); t.pca(a(7), a(8)); t.pca(a(8), a(4));
+    t.focus = vec![(a(3), a(4)), (a(4), a(3))]; v.push(t);
+    // equal links, different segment count: S-1-2-D (3 segments) vs S-5-2-D (2 segments)
+    let mut t = Topo::new("three_vs_two", &[a(1), a(2)]);
+    t.cla(a(1), a(2)); t.pca(a(1), a(3)); t.pca(a(2), a(4)); t.pca(a(2), a(5)); t.pca(a(5), a(3));
+    t.focus = vec![(a(3), a(4)), (a(4), a(3))]; v.push(t);
+    // peering vs non-peering with equal cost: S-1-D and S~X-D are both 2 links over 2 segments
+    let mut t = Topo::new("peer_equal_cost", &[a(1)]);
+    t.pca(a(1), a(2)); t.pca(a(1), a(3)); t.pca(a(3), a(4)); t.pca(a(1), a(4)); t.pla(a(2), a(3));
+    t.focus = vec![(a(2), a(4)), (a(4), a(2))]; v.push(t);
+    // shortcut vs non-shortcut with equal cost: S-A-D (shortcut at A) and S-2-D
+    let mut t = Topo::new("shortcut_equal_cost", &[a(1), a(2)]);
+    t.cla(a(1), a(2)); t.pca(a(1), a(3)); t.pca(a(3), a(4)); t.pca(a(3), a(5)); t.pca(a(2), a(4)); t.pca(a(2), a(5));
+    t.focus = vec![(a(4), a(5)), (a(5), a(4))]; v.push(t);
+    // a cheap 3-segment route against expensive shortcut / peering routes
+    let mut t = Topo::new("cheap_three_segments", &[a(1), a(2), a(3)]);
+    t.cla(a(1), a(2)); t.cla(a(2), a(3)); t.cla(a(1), a(3)); t.pca(a(1), a(4)); t.pca(a(3), a(5));
+    t.pca(a(2), a(6)); t.pca(a(6), a(7)); t.pca(a(7), a(8)); t.pca(a(8), a(4)); t.pca(a(8), a(5));
+    t.pca(a(1), a(9)); t.pca(a(9), a(10)); t.pca(a(10), a(11)); t.pca(a(3), a(12)); t.pca(a(12), a(13)); t.pca(a(13), a(14));
+    t.pca(a(11), a(4)); t.pca(a(14), a(5)); t.pla(a(11), a(14));
+    t.focus = vec![(a(4), a(5)), (a(5), a(4))]; v.push(t);
     v.push(default_graph());
     v
 }
@@ -318,7 +353,7 @@ fn obs(p: &ScionPath) -> PathObs {
               nsegs, peering }
 }
 
-struct Out { panic: bool, stable: bool, paths: Vec<PathObs>, bytes0: Vec<u8>, ms: u128 }
+struct Out { panic: bool, stable: bool, paths: Vec<PathObs>, bytes0: Vec<u8>, ms: u128, sub: Option<Vec<PathObs>> }
 
 fn run(q: &Q) -> Out {
     let cores: Vec<UnsignedPathSegment> = q.cores.iter().map(|s| s.seg()).collect();
@@ -355,9 +390,15 @@ fn run(q: &Q) -> Out {
             }
         }
     }
-    if panic { return Out { panic, stable, paths: vec![], bytes0: vec![], ms }; }
+    // metamorphic reference: the valid subset alone
+    let sub = q.sub.as_ref().and_then(|(sc, sn)| {
+        let c: Vec<UnsignedPathSegment> = sc.iter().map(|s| s.seg()).collect();
+        let n: Vec<UnsignedPathSegment> = sn.iter().map(|s| s.seg()).collect();
+        catch(AssertUnwindSafe(|| combine(src, dst, c, n))).map(|ps| ps.iter().map(obs).collect::<Vec<_>>())
+    });
+    if panic { return Out { panic, stable, paths: vec![], bytes0: vec![], ms, sub }; }
     let (paths, bytes0) = first.unwrap();
-    Out { panic, stable, paths, bytes0, ms }
+    Out { panic, stable, paths, bytes0, ms, sub }
 }
 
 fn case_text(q: &Q, o: &Out) -> String {
@@ -367,10 +408,12 @@ fn case_text(q: &Q, o: &Out) -> String {
     for k in 0..ids.len().saturating_sub(1).min(4) {
         assert_eq!(ids[k].cmp(&ids[k + 1]), segs[k].id().cmp(&segs[k + 1].id()), "SegmentID order");
     }
-    format!("(mkCase {} {} {} {} {} {} {} {} {} {})", q.src, q.dst,
+    format!("(mkCase {} {} {} {} {} {} {} {} {} {} {} {})", q.src, q.dst,
             coq_list(q.cores.iter().map(c_seg)), coq_list(q.ncs.iter().map(c_seg)),
             coq_list(ids.iter().map(|b| dec(b))), coq_bool(q.wf), coq_bool(o.panic), coq_bool(o.stable),
-            coq_list(o.paths.iter().map(|p| p.text.clone())), coq_bytes(&o.bytes0))
+            coq_list(o.paths.iter().map(|p| p.text.clone())), coq_bytes(&o.bytes0),
+            coq_bool(o.sub.is_some()),
+            coq_list(o.sub.as_ref().map(|v| v.iter().map(|p| p.text.clone()).collect::<Vec<_>>()).unwrap_or_default()))
 }
 
 // ---------------------------------------------------------------------------------------------
@@ -420,7 +463,7 @@ fn topo_query(t: &Topo, src: u64, dst: u64, variant: u64, rng: &mut Rng) -> Q {
     }
     if variant >= 1 { rng.shuffle(&mut cores); rng.shuffle(&mut ncs); }
     Q { stream: stream.into(), desc: format!("{}/{}", t.name, vname), src, dst, cores, ncs,
-        ases: t.ases.iter().map(|a| a.0).collect(), wf }
+        ases: t.ases.iter().map(|a| a.0).collect(), wf, sub: None }
 }
 
 fn all_pairs(t: &Topo) -> Vec<(u64, u64)> {
@@ -558,7 +601,7 @@ fn soup(rng: &mut Rng, k: u64) -> Q {
     }
     let src = *rng.pick(&ases);
     let dst = *rng.pick(&ases);
-    Q { stream: "soup".into(), desc: format!("soup/{}as", na), src, dst, cores, ncs, ases, wf: false }
+    Q { stream: "soup".into(), desc: format!("soup/{}as", na), src, dst, cores, ncs, ases, wf: false, sub: None }
 }
 
 fn chain(rng: &mut Rng, first: u64, isd: u64, base: u64, n: usize) -> Vec<AsEntry> {
@@ -576,7 +619,7 @@ fn directed(rng: &mut Rng) -> Vec<Q> {
     let (a, b, c, d) = (ia(1, 1), ia(1, 2), ia(1, 3), ia(1, 4));
     let mut v: Vec<Q> = vec![];
     let mut push = |name: &str, src: u64, dst: u64, cores: Vec<S>, ncs: Vec<S>| {
-        v.push(Q { stream: "directed".into(), desc: name.into(), src, dst, cores, ncs, ases: vec![a, b, c, d], wf: false });
+        v.push(Q { stream: "directed".into(), desc: name.into(), src, dst, cores, ncs, ases: vec![a, b, c, d], wf: false, sub: None });
     };
     let sg = |e: Vec<AsEntry>| S { ts: TS0, sid: 0x1234, e };
     // d0 / d1: all interface ids zero
@@ -687,6 +730,187 @@ fn directed(rng: &mut Rng) -> Vec<Q> {
 // driver
 // ---------------------------------------------------------------------------------------------
 
+
+// ---------------------------------------------------------------------------------------------
+// AS entries with several peer entries: unusable ones before / between / after the usable one
+// ---------------------------------------------------------------------------------------------
+
+const JUNK_PEER_KINDS: [&str; 7] = ["zero_remote", "zero_local", "zero_both", "dup", "dangling_as", "dangling_if", "self"];
+
+/// an unusable peer entry for `e`, modelled on the usable entry `u` (if any); `wf_ok` says whether
+/// the entry keeps the segment well-formed (non-zero local interface, new (lif, peer, pif) key,
+/// the entry's ConsEgress)
+fn junk_peer(rng: &mut Rng, e: &AsEntry, u: Option<&PeerEntry>, kind: &str, salt: u16) -> (PeerEntry, bool) {
+    let eg = e.hop_entry.hop_field.cons_egress;
+    let (upeer, uif, ulif) = match u {
+        Some(p) => (p.peer.to_u64(), p.peer_interface, p.hop_field.cons_ingress),
+        None => (ia(1, 900), 40, 50),
+    };
+    let mk = |rng: &mut Rng, pr: u64, pif: u16, lif: u16, mtu: u16| PeerEntry {
+        peer: IsdAsn::from_u64(pr), peer_interface: pif, peer_mtu: mtu,
+        hop_field: hopf(rng.range(5, 70) as u8, lif, eg, rmac(rng)) };
+    match kind {
+        "zero_remote" => (mk(rng, upeer, 0, 90 + salt, 1111), false),
+        "zero_local" => (mk(rng, upeer, uif, 0, 1112), false),
+        "zero_both" => (mk(rng, upeer, 0, 0, 1113), false),
+        "dup" => (mk(rng, upeer, uif, ulif, 1114), false),
+        "dangling_as" => (mk(rng, ia(3, 700 + salt as u64), 7 + salt, 60 + salt, 1115), true),
+        "dangling_if" => (mk(rng, upeer, 700 + salt, 70 + salt, 1116), true),
+        _ => (mk(rng, e.local.to_u64(), 80 + salt, 80 + salt, 1117), true),
+    }
+}
+
+/// give AS entries 2..=4 peer entries; `only_wf`: only entries that keep the set well-formed.
+/// Returns (description, still well-formed)
+fn multipeer(q: &mut Q, rng: &mut Rng, only_wf: bool) -> (String, bool) {
+    let mut wf = true;
+    let mut names: Vec<String> = vec![];
+    for s in q.ncs.iter_mut() {
+        for i in 0..s.e.len() {
+            let has = !s.e[i].peer_entries.is_empty();
+            // entries with a peering link always get company; other non-first entries sometimes
+            if !(has || (i > 0 && rng.chance(1, 5))) { continue; }
+            let k = rng.range(1, 3) as usize;
+            for j in 0..k {
+                let kinds: &[&str] = if only_wf { &JUNK_PEER_KINDS[4..] } else { &JUNK_PEER_KINDS[..] };
+                let kind = *rng.pick(kinds);
+                let u = if s.e[i].peer_entries.is_empty() { None }
+                        else { Some(s.e[i].peer_entries[rng.below(s.e[i].peer_entries.len() as u64) as usize].clone()) };
+                let (pe, ok) = junk_peer(rng, &s.e[i], u.as_ref(), kind, (i * 4 + j) as u16);
+                wf &= ok;
+                // position: front (most interesting), back, or anywhere
+                let n = s.e[i].peer_entries.len();
+                let pos = match rng.below(4) { 0 | 1 => 0, 2 => n, _ => rng.below(n as u64 + 1) as usize };
+                s.e[i].peer_entries.insert(pos, pe);
+                if names.len() < 4 { names.push(format!("{kind}@{pos}")); }
+            }
+        }
+    }
+    (names.join(","), wf)
+}
+
+/// plain / shuffled / duplicated variants only
+fn rng_variant(v: u64) -> u64 { if v <= 2 { v } else { 0 } }
+
+fn has_peering_path(o: &Out) -> bool { o.paths.iter().any(|p| p.peering) }
+
+/// directed: core 1 with children 2 and 3 (and grandchildren 4 under 2, 5 under 3), peering 2--3;
+/// every kind of unusable peer entry before / after / around the usable one, on the up side, the
+/// down side and both; requests that start / end on the peering ASes and that go through them
+fn directed_multipeer(rng: &mut Rng) -> Vec<Q> {
+    let (c, x, y, gx, gy) = (ia(1, 1), ia(1, 2), ia(1, 3), ia(1, 4), ia(1, 5));
+    let mut v = vec![];
+    let orders: [(&str, [bool; 3]); 3] = [("junk_first", [true, false, false]), ("junk_last", [false, false, true]),
+                                          ("junk_around", [true, false, true])];
+    for (ki, kind) in JUNK_PEER_KINDS.iter().enumerate() {
+        for (oi, (oname, slots)) in orders.iter().enumerate() {
+            for side in 0..3u64 {
+                // keep the directed block small: all sides only for the zero-remote kind
+                if ki != 0 && side != (ki as u64 + oi as u64) % 3 { continue; }
+                let ux = peer(rng, y, 31, 30, 0, 1300);   // at AS 2: local if 30, remote 3#31
+                let uy = peer(rng, x, 30, 31, 0, 1300);   // at AS 3: local if 31, remote 2#30
+                let mut ex = entry(x, gx, 1500, 1400, hopf(40, 2, 7, rmac(rng)), vec![]);
+                let mut ey = entry(y, gy, 1500, 1400, hopf(41, 2, 8, rmac(rng)), vec![]);
+                let fill = |rng: &mut Rng, e: &mut AsEntry, u: &PeerEntry, junk: bool| {
+                    let mut u2 = u.clone(); u2.hop_field.cons_egress = e.hop_entry.hop_field.cons_egress;
+                    let mut l = vec![];
+                    if junk && slots[0] { l.push(junk_peer(rng, e, Some(&u2), kind, 1).0); }
+                    l.push(u2.clone());
+                    if junk && slots[2] { l.push(junk_peer(rng, e, Some(&u2), kind, 2).0); }
+                    e.peer_entries = l;
+                };
+                fill(rng, &mut ex, &ux, side != 1);
+                fill(rng, &mut ey, &uy, side != 0);
+                let up = S { ts: TS0 + 5, sid: 0x2222, e: vec![ent(rng, c, x, 0, 1), ex.clone(), ent(rng, gx, 0, 9, 0)] };
+                let down = S { ts: TS0 + 9, sid: 0x3333, e: vec![ent(rng, c, y, 0, 2), ey.clone(), ent(rng, gy, 0, 9, 0)] };
+                // the segments of the peering ASes themselves (leaf = peering AS)
+                let mut lx = ex.clone(); lx.hop_entry.hop_field.cons_egress = 0; lx.next = IsdAsn::from_u64(0);
+                for p in lx.peer_entries.iter_mut() { p.hop_field.cons_egress = 0; }
+                let mut ly = ey.clone(); ly.hop_entry.hop_field.cons_egress = 0; ly.next = IsdAsn::from_u64(0);
+                for p in ly.peer_entries.iter_mut() { p.hop_field.cons_egress = 0; }
+                let upx = S { ts: TS0 + 6, sid: 0x4444, e: vec![ent(rng, c, x, 0, 1), lx] };
+                let downy = S { ts: TS0 + 7, sid: 0x5555, e: vec![ent(rng, c, y, 0, 2), ly] };
+                let sname = ["up", "down", "both"][side as usize];
+                for (src, dst, rq) in [(gx, gy, "through"), (x, y, "on_peers"), (gy, x, "mixed")] {
+                    // one request per (kind, order, side), rotating
+                    if (ki + oi + side as usize) % 3 != ["through", "on_peers", "mixed"].iter().position(|r| *r == rq).unwrap() { continue; }
+                    v.push(Q { stream: "directed".into(), desc: format!("d13:multipeer_{kind}_{oname}_{sname}_{rq}"), src, dst,
+                               cores: vec![], ncs: vec![up.clone(), down.clone(), upx.clone(), downy.clone()],
+                               ases: vec![c, x, y, gx, gy], wf: false, sub: None });
+                }
+            }
+        }
+    }
+    v
+}
+
+// ---------------------------------------------------------------------------------------------
+// valid set + junk segments (metamorphic: the valid paths must survive)
+// ---------------------------------------------------------------------------------------------
+
+/// append segments that cannot contribute a usable path: oversize (unencodable) segments hanging
+/// on ASes of the request, segments over foreign ASes, degenerate ones.  The valid set is kept.
+fn add_junk_segments(q: &mut Q, rng: &mut Rng) -> String {
+    q.sub = Some((q.cores.clone(), q.ncs.clone()));
+    let mut names = vec![];
+    let roots: Vec<u64> = q.ncs.iter().chain(q.cores.iter()).filter_map(first_ia).collect();
+    let k = rng.range(1, 3);
+    for j in 0..k {
+        let base = 3000 + 200 * j;
+        let kind = rng.below(7);
+        match kind {
+            0 | 1 => {
+                // an unencodable down segment (65..=75 entries) from a root of the valid set to dst
+                let n = rng.range(65, 75) as usize;
+                let root = if roots.is_empty() { ia(2, base) } else { *rng.pick(&roots) };
+                let mut e = chain(rng, root, 2, base, n);
+                let last = e.len() - 1;
+                e[last].local = IsdAsn::from_u64(q.dst);
+                e[last - 1].next = IsdAsn::from_u64(q.dst);
+                q.ncs.push(S { ts: TS0 + 17, sid: 0x7777, e });
+                names.push("oversize_down_to_dst");
+            }
+            2 => {
+                // the same hanging on src
+                let n = rng.range(65, 75) as usize;
+                let root = if roots.is_empty() { ia(2, base) } else { *rng.pick(&roots) };
+                let mut e = chain(rng, root, 2, base, n);
+                let last = e.len() - 1;
+                e[last].local = IsdAsn::from_u64(q.src);
+                e[last - 1].next = IsdAsn::from_u64(q.src);
+                q.ncs.push(S { ts: TS0 + 18, sid: 0x7778, e });
+                names.push("oversize_up_from_src");
+            }
+            3 => {
+                // an oversize core segment between two roots
+                let r1 = if roots.is_empty() { ia(2, base) } else { *rng.pick(&roots) };
+                let mut e = chain(rng, r1, 2, base, 66);
+                let last = e.len() - 1;
+                if let Some(r2) = roots.iter().find(|r| **r != r1) { e[last].local = IsdAsn::from_u64(*r2); }
+                q.cores.push(S { ts: TS0 + 19, sid: 0x7779, e });
+                names.push("oversize_core");
+            }
+            4 => {
+                let n = rng.range(2, 6) as usize;
+                q.ncs.push(S { ts: TS0 + 20, sid: 0x777a, e: chain(rng, ia(2, base), 2, base, n) });
+                names.push("foreign_noncore");
+            }
+            5 => {
+                // all interface ids zero, from a root to dst
+                let root = if roots.is_empty() { ia(2, base) } else { *rng.pick(&roots) };
+                q.ncs.push(S { ts: TS0 + 21, sid: 0x777b, e: vec![ent(rng, root, q.dst, 0, 0), ent(rng, q.dst, 0, 0, 0)] });
+                names.push("zero_ifids_to_dst");
+            }
+            _ => {
+                q.ncs.push(S { ts: TS0 + 22, sid: 0x777c, e: vec![] });
+                q.cores.push(S { ts: TS0 + 23, sid: 0x777d, e: vec![ent(rng, q.src, 0, 0, 0)] });
+                names.push("empty_and_single");
+            }
+        }
+    }
+    names.join("+")
+}
+
 fn bucket(n: usize) -> &'static str {
     match n { 0 => "segs.0", 1..=2 => "segs.1-2", 3..=5 => "segs.3-5", 6..=10 => "segs.6-10", 11..=25 => "segs.11-25", _ => "segs.26+" }
 }
@@ -741,7 +965,13 @@ fn main() {
     let mut order: Vec<usize> = (0..topos.len()).collect();
     order.push(topos.len() - 1); order.push(topos.len() - 1);
     let mut pairs: Vec<Vec<(u64, u64)>> = topos.iter().map(all_pairs).collect();
-    for p in pairs.iter_mut() { rng.shuffle(p); }
+    for (k, p) in pairs.iter_mut().enumerate() {
+        rng.shuffle(p);
+        // the topology's focus requests come first
+        let f = topos[k].focus.clone();
+        p.retain(|x| !f.contains(x));
+        let mut q = f; q.extend(p.iter().cloned()); *p = q;
+    }
     let mut cursor = vec![0usize; topos.len()];
     let rot = (seed as usize) % order.len();
     let mut turn = 0usize;
@@ -750,8 +980,25 @@ fn main() {
         let t = order[(turn + rot) % order.len()];
         turn += 1;
         let (src, dst) = pairs[t][cursor[t] % pairs[t].len()];
+        // the focus requests of a topology are asked plainly the first time round
+        let variant = if cursor[t] < topos[t].focus.len() { 0 } else { variant };
         cursor[t] += 1;
         topo_query(&topos[t], src, dst, variant, rng)
+    };
+    // a well-formed query on a topology with peering links whose result uses a peering link
+    let peer_topos: Vec<usize> = (0..topos.len()).filter(|&k| !topos[k].pl.is_empty()).collect();
+    let mut pcursor = vec![0usize; topos.len()];
+    let mut pturn = 0usize;
+    let mut next_peer_query = |rng: &mut Rng, variant: u64| -> Option<Q> {
+        for _ in 0..60 {
+            let t = peer_topos[(pturn + rot) % peer_topos.len()];
+            pturn += 1;
+            let (src, dst) = pairs[t][(pcursor[t] * 7 + 3) % pairs[t].len()];
+            pcursor[t] += 1;
+            let q = topo_query(&topos[t], src, dst, variant, rng);
+            if has_peering_path(&run(&q)) { return Some(q); }
+        }
+        None
     };
     let pick_variant = |rng: &mut Rng| -> u64 {
         match rng.below(100) { 0..=29 => 0, 30..=47 => 1, 48..=65 => 2, 66..=79 => 3, 80..=89 => 5, _ => 4 }
@@ -762,7 +1009,16 @@ fn main() {
         while d.sh.total < n && attempts < 60 * n + 100 {
             attempts += 1;
             let v = pick_variant(&mut rng);
-            let q = next_topo_query(&mut rng, v);
+            let q = if rng.chance(1, 5) {
+                // several peer entries per AS entry, unusable ones before / between / after the usable one
+                let only_wf = rng.chance(1, 2);
+                let Some(mut q) = next_peer_query(&mut rng, rng_variant(v)) else { continue; };
+                let (names, wf) = multipeer(&mut q, &mut rng, only_wf);
+                q.wf = wf;
+                q.stream = if wf { "c04".into() } else { "multipeer".into() };
+                q.desc = format!("{}+multipeer[{}]", q.desc, names);
+                q
+            } else { next_topo_query(&mut rng, v) };
             if q.cores.len() + q.ncs.len() > lim.max_segs { d.sum.count("dropped.segs"); continue; }
             let o = run(&q);
             if o.paths.len() > lim.max_paths_c04 { d.sum.count("dropped.paths"); continue; }
@@ -770,7 +1026,9 @@ fn main() {
             d.emit(&q, &o);
         }
     } else {
-        for q in directed(&mut rng) {
+        let mut dir = directed(&mut rng);
+        dir.extend(directed_multipeer(&mut rng));
+        for q in dir {
             if d.sh.total >= n { break; }
             let o = run(&q);
             d.emit(&q, &o);
@@ -778,7 +1036,23 @@ fn main() {
         while d.sh.total < n && attempts < 60 * n + 100 {
             attempts += 1;
             let r = rng.below(100);
-            let q = if r < 45 {
+            let q = if r < 12 {
+                let pv = rng.below(3);
+                let Some(mut q) = next_peer_query(&mut rng, pv) else { continue; };
+                let (names, wf) = multipeer(&mut q, &mut rng, false);
+                q.wf = wf;
+                q.stream = "multipeer".into();
+                q.desc = format!("{}+multipeer[{}]", q.desc, names);
+                q
+            } else if r < 24 {
+                let v = rng.below(3);
+                let mut q = next_topo_query(&mut rng, v);
+                let names = add_junk_segments(&mut q, &mut rng);
+                q.stream = "junk".into();
+                q.desc = format!("{}+junk[{}]", q.desc, names);
+                q.wf = false;
+                q
+            } else if r < 45 {
                 let v = rng.below(4);
                 let mut q = next_topo_query(&mut rng, v);
                 let k = rng.range(1, 3);
